@@ -52,6 +52,7 @@ EXPECTED_PROBES = [
     "legit_error_then_continue",
     "use_after_end_checked",
     "read_only_refused",
+    "initial_load_origin_from_text",
 ]
 
 
@@ -95,6 +96,7 @@ def gen_case(seed, tier):
         "aborts": "all",
         "load_replacement": rng.random() < 0.7,
         "base_exc_parity": rng.choice([0, 1]),
+        "load_text_no_origin": rng.random() < 0.12,
     }
 
 
@@ -434,8 +436,14 @@ def _run_read_txn(ctx, b, m, t):
 
 
 def _run_config(ctx, case, kind, relativize):
-    b = Z.Bench(kind, relativize)
-    m = Z.load_bench(b, case["base"], replacement=case.get("load_replacement", True))
+    text_ok = all(op["o"] == "add" and op["n"] not in ("OUT", "LONG") and op.get("cls", "IN") == "IN" and op["t"] not in ("CNAME", "RRSIG:CNAME") and op["ttl"] < 2**31 for op in case["base"])
+    if case.get("load_text_no_origin") and text_ok:
+        # the zone object is created without an origin; it is learnt from $ORIGIN in the text
+        b, m = Z.load_bench_from_text(kind, relativize, case["base"])
+        ctx.res.probes.inc("initial_load_origin_from_text")
+    else:
+        b = Z.Bench(kind, relativize)
+        m = Z.load_bench(b, case["base"], replacement=case.get("load_replacement", True))
     _zone_equals(ctx, b, m.snapshot(), "after initial load", "C10:commit-mismatch")
     for ti, t in enumerate(case["txns"]):
         if t["kind"] == "r":
